@@ -49,6 +49,8 @@ def runs(prop, tier):
            ["@long", "--families", "thetac:3:4", "--alpha", "A2H", "--ks", "2,3", "--wchunks", 32]]),
          ("other build configurations of the library (PARMCB_LOGGING on, PARMCB_INVARIANTS_CHECK off): G(4) x A3, G(5) x A2, k in {%s}" % ks_q,
           [[t, "--n", 4, "--alpha", "A3", "--ks", ks_q] for t in ("@log", "@noinv")] + [[t, "--n", 5, "--alpha", "A2", "--ks", ks_q] for t in ("@log", "@noinv")]),
+         ("another graph type (vertex property present, edge_weight behind an edge_index property): G(4) x A3, G(5) x A2, k in {%s}" % ks_q,
+          [["@altgraph", "--n", 4, "--alpha", "A3", "--ks", ks_q], ["@altgraph", "--n", 5, "--alpha", "A2", "--ks", ks_q]]),
          ("theta graphs with chords (11 vertices, many non-spanner edges competing for one heavy edge): edge #0 = 1000, every other edge over {1,2}, both orientations",
           [["--families", "thetac:3:4", "--alpha", "A2H", "--ks", "2,3", "--wchunks", 32, "--orient", o] for o in (0, 1)]),
          ("fixed menu: 1200 pseudo-random sparse graphs n=8..20 x 3 pseudo-random weightings in 1..9, and x every one-heavy-edge weighting for n <= 12",
@@ -76,6 +78,8 @@ def runs(prop, tier):
 
 
 def _build_for(h):
+    if h == "approx_altgraph":
+        return vlib.build(h, "approx.cpp", flags=vlib.BASE_FLAGS + ["-fno-access-control", "-DVH_GRAPH_ALT"])
     if h in ("approx_cfg_log", "approx_cfg_noinv"):
         return vlib.build(h, "approx.cpp", flags=vlib.BASE_FLAGS + ["-fno-access-control"], cfg=vlib.gen_config(logging=(h == "approx_cfg_log"), invariants=(h != "approx_cfg_noinv")))
     if h == "approx_long":
@@ -95,7 +99,8 @@ def run(prop, tier):
                      "C15 reads private members via -fno-access-control; member names are an interface of this harness (build failure = harness error)"]
     binary = _build()
     binary_long = vlib.build("approx_long", "approx.cpp", flags=vlib.BASE_FLAGS + ["-fno-access-control", "-DVH_WTYPE=long"])
-    cfgbin = {"@log": vlib.build("approx_cfg_log", "approx.cpp", flags=vlib.BASE_FLAGS + ["-fno-access-control"], cfg=vlib.gen_config(logging=True)),
+    cfgbin = {"@altgraph": vlib.build("approx_altgraph", "approx.cpp", flags=vlib.BASE_FLAGS + ["-fno-access-control", "-DVH_GRAPH_ALT"]),
+              "@log": vlib.build("approx_cfg_log", "approx.cpp", flags=vlib.BASE_FLAGS + ["-fno-access-control"], cfg=vlib.gen_config(logging=True)),
               "@noinv": vlib.build("approx_cfg_noinv", "approx.cpp", flags=vlib.BASE_FLAGS + ["-fno-access-control"], cfg=vlib.gen_config(invariants=False))}
     c.builds_done()
     skipped = 0
@@ -107,8 +112,8 @@ def run(prop, tier):
                 args = args[1:]
             r = vlib.run_harness(cfgbin[tag] if tag else binary_long if is_long else binary, list(args) + ["--props", prop, "--seed", vlib.seed(), "--deadline-s", int(c.remaining())])
             skipped += r.get("c06_skipped_structurally_invalid", 0)
-            c.add_run(r, bound + (" [weight type long]" if is_long else "") + ((" [build configuration %s]" % tag[1:]) if tag else "") + " :: " + r["args"], CLASSES[prop],
-                      replay={"harness": "approx_long" if is_long else {"@log": "approx_cfg_log", "@noinv": "approx_cfg_noinv"}.get(tag, "approx")})
+            c.add_run(r, bound + (" [weight type long]" if is_long else "") + ((" [%s]" % tag[1:]) if tag else "") + " :: " + r["args"], CLASSES[prop],
+                      replay={"harness": "approx_long" if is_long else {"@log": "approx_cfg_log", "@noinv": "approx_cfg_noinv", "@altgraph": "approx_altgraph"}.get(tag, "approx")})
             if prop == "C15":
                 c.extra["spanners_with_dropped_edges"] = c.extra.get("spanners_with_dropped_edges", 0) + r.get("spanners_with_dropped_edges", 0)
     if prop == "C06":
